@@ -63,6 +63,8 @@ structure Block where
   init : σ
   work : σ → View → σ × Out
   eof : σ → View → Bool
+  /-- a control call between two `work()` calls (`Delay::set_delay`); most blocks have none -/
+  poke : σ → Nat → σ := fun s _ => s
 
 /-- The derive macro's `eof()`: every input has ended and is drained. -/
 def macroEof (v : View) : Bool :=
